@@ -16,9 +16,14 @@
 EXTENDS Grammar
 
 \* ---- the expression menu: [toks, ptoks (safe as a print argument), sx] ----
-T(t) == [toks |-> MinTop(t, "stmt"), ptoks |-> MinTop(t, "print"), sx |-> Sx(t)]
-Raw(toks, sx) == [toks |-> toks, ptoks |-> toks, sx |-> sx]
-RawP(toks, sx) == [toks |-> toks, ptoks |-> <<"(">> \o toks \o <<")">>, sx |-> sx]
+\* tree = TRUE: the entry is a tree of Grammar.tla printed by MinTop (the strict parser must read it back)
+T(t) == [toks |-> MinTop(t, "stmt"), ptoks |-> MinTop(t, "print"), sx |-> Sx(t), tree |-> TRUE]
+Raw(toks, sx) == [toks |-> toks, ptoks |-> toks, sx |-> sx, tree |-> FALSE]
+RawP(toks, sx) == [toks |-> toks, ptoks |-> <<"(">> \o toks \o <<")">>, sx |-> sx, tree |-> FALSE]
+\* self-consistency of a menu entry: where the strict parser accepts the entry's text, it reads the entry's tree
+MenuEntryOK(x) ==
+  LET r == Parse(x.toks, "stmt")  q == Parse(x.ptoks, "print")
+  IN (r.ok => Sx(r.t) = x.sx) /\ (q.ok => Sx(q.t) = x.sx)
 Un(op, e) == [k |-> "un", op |-> op, e |-> e]
 Bin(op, l, r) == [k |-> "bin", op |-> op, l |-> l, r |-> r]
 Pre(op, e) == [k |-> "pre", op |-> op, e |-> e]
@@ -62,6 +67,11 @@ XMenu == <<
   RawP(<<"\"c\"", "|", "getline", "tgt", ">", "0">>, "(> (pget \"c\" tgt) 0)"),
   RawP(<<"getline", "tgt", "<", "\"f\"", "\"g\"">>, "(cat (fget tgt \"f\") \"g\")"),
   Raw(<<"A", "[", "a", ",", "b", "]">>, "([] A a b)"),
+  T([k |-> "asg", op |-> "-=", l |-> Atom("a"), r |-> Atom("b")]),
+  T([k |-> "asg", op |-> "*=", l |-> Atom("a"), r |-> Atom("b")]),
+  T([k |-> "asg", op |-> "%=", l |-> Atom("a"), r |-> Atom("b")]),
+  T([k |-> "asg", op |-> "^=", l |-> Atom("a"), r |-> Atom("b")]),
+  T([k |-> "asg", op |-> "+=", l |-> [k |-> "field", e |-> Atom("1")], r |-> Atom("b")]),
   Raw(<<"a", "**", "b">>, "(^ a b)"),
   Raw(<<"a", "**=", "b">>, "(^= a b)")
 >>
@@ -156,7 +166,11 @@ BuildS(d, j, xi, sh) ==
     [] p = "if" -> LET b == BuildS(d, j + 1, xi + 1, sh)
                    IN [toks |-> <<"if", "(">> \o x1.toks \o <<")">> \o body(b),
                        sx |-> "(if " \o x1.sx \o " (body" \o b.sx \o ") (else))", j |-> b.j, xi |-> b.xi]
-    [] p = "ifelse" -> LET b == BuildS(d, j + 1, xi + 1, sh)
+    [] p = "ifelse" -> LET b0 == BuildS(d, j + 1, xi + 1, sh)
+                           \* dangling else: an unbraced then-part that contains an else-less `if` would capture
+                           \* the `else`; such a then-part is written with braces
+                           dangling == \E q \in (j + 1)..(b0.j - 1) : d[q] = "if"
+                           b == IF b0.spell = "bare" /\ dangling THEN [b0 EXCEPT !.spell = "brace"] ELSE b0
                            e == BuildS(d, b.j, b.xi, sh)
                            \* a body that is `;` or bare is separated from `else` by a newline
                        IN [toks |-> <<"if", "(">> \o x1.toks \o <<")">> \o body(b) \o <<NL, "else">> \o body(e),
